@@ -121,6 +121,21 @@ func gen(t *rapid.T) Case {
 		c.Tol = vkit.F(float64(rapid.SampledFrom([]int{0, 0, 1, 2, 3, 5, 8, 40}).Draw(t, "thintol")) / 2 * u)
 		return c
 	}
+	if rapid.IntRange(0, 24).Draw(t, "thinwalk") == 7 {
+		// a simple line like any other, flattened: its y-coordinates are handed to Simplify multiplied by 2^-k (an affine
+		// map: what crosses, crosses; what is simple, stays simple), so that every cross product of two of its segments is
+		// far below the rounding unit of its x-coordinates
+		c.Kind = "thinwalk"
+		c.ThinExp = rapid.SampledFrom([]int{300, 520, 540, 700, 1000}).Draw(t, "thinwalkexp")
+		if rapid.IntRange(0, 2).Draw(t, "thinpoke") == 0 {
+			l, tol := genPoke(t)
+			c.Lines, c.Style, c.Tol = [][]vkit.P2{l}, "poke", vkit.F(tol)
+		} else {
+			l, st := genLine(t)
+			c.Lines, c.Style = [][]vkit.P2{l}, st
+		}
+		return c
+	}
 	if c.Kind == "batch" {
 		// 40 short lines of 5-9 random points in a 20x20 box with a tolerance of the box's order: the lines on which the
 		// scan overshoots and has to back off (each is simplified and judged on its own; most are not simple and only
@@ -457,6 +472,43 @@ func run(c Case) (v vkit.Verdict) {
 			v.Class("thin_kept_vertices")
 		}
 		v.NonTrivial = true
+		return v
+	}
+	if c.Kind == "thinwalk" {
+		l := c.Lines[0]
+		f, fi := math.Ldexp(1, -c.ThinExp), math.Ldexp(1, c.ThinExp)
+		in := make(geom.LineString, len(l))
+		for i, q := range l {
+			y := float64(q[1]) * f
+			if (y * fi) != float64(q[1]) {
+				v.Class("thinwalk_not_exact_skipped")
+				return v
+			}
+			in[i] = geom.Point{X: float64(q[0]), Y: y}
+		}
+		orig := append(geom.LineString{}, in...)
+		out := in.Simplify(tol).(geom.LineString)
+		if !reflect.DeepEqual(append(geom.LineString{}, in...), orig) {
+			return v.Fail("input line was modified")
+		}
+		d, msg := checkCurve(geom.Path(in), geom.Path(out), tol)
+		if msg != "" {
+			return v.Fail("line with y-coordinates multiplied by 2^-%d (%d vertices, tol %v): %s; output %v", c.ThinExp, len(in), tol, msg, out)
+		}
+		if d > 0 {
+			v.Class("thinwalk_dropped_vertices")
+		}
+		if len(l) >= 3 && isSimple(l, 1e-6) {
+			v.Class("thinwalk_input_simple")
+			v.NonTrivial = true
+			back := make(geom.Path, len(out))
+			for i, q := range out {
+				back[i] = geom.Point{X: q.X, Y: q.Y * fi}
+			}
+			if a, b, bad := crossing(back, 1e-9); bad {
+				return v.Fail("input line is simple but, with its y-coordinates multiplied by 2^-%d, output segments %d and %d cross (tol %v): output with y multiplied by 2^%d again = %v", c.ThinExp, a, b, tol, c.ThinExp, back)
+			}
+		}
 		return v
 	}
 	if c.Kind == "batch" {
